@@ -768,12 +768,16 @@ def check_C12(chk):
     cases = os.path.join(wd, "cases.ndjson")
     r = mc("C12", "mc_tls", "MC_Tls.tla", dict(DerRoots="parsed"),
            ["NoDataUnlessAuthenticated", "SuppliedRootAccepted", "Gen"], properties=["Decides"], case_file=cases)
-    chk.add_mc(r, "MC_Tls (240 configurations + 60 with the server's own certificate supplied as root)")
-    if r["cases"] != 300:
-        raise ToolError("expected 300 TLS configurations (240 + 60 own-leaf extension), got %d" % r["cases"])
+    chk.add_mc(r, "MC_Tls (the 240 configurations of the property + extensions: own certificate as root, two roots one after the other, a certificate expired two minutes ago)")
+    if r["cases"] != 648:
+        raise ToolError("expected 648 TLS configurations (240 + own-leaf, two-root and just-expired extensions), got %d" % r["cases"])
     out = os.path.join(wd, "run")
     os.makedirs(out, exist_ok=True)
-    fix = os.path.join(ROOT, "fixtures", "tls")
+    # the static fixtures plus a server certificate that expired two minutes ago, issued now by the test CA
+    fix = os.path.join(wd, "fixtures")
+    p = subprocess.run([os.path.join(ROOT, "fixtures", "tls", "mint.sh"), fix], stdout=subprocess.PIPE, stderr=subprocess.STDOUT, text=True)
+    if p.returncode != 0 or not os.path.exists(os.path.join(fix, "justexpired.cert.pem")):
+        raise ToolError("could not issue the just-expired test certificate (openssl CLI): %s" % p.stdout[-400:])
     for b in ["rustls", "native"]:
         harness("vhtls-" + b, ["--cases", cases, "--out", out, "--fixtures", fix], timeout=1800)
     trace = os.path.join(out, "trace.ndjson")
